@@ -651,6 +651,8 @@ func libSscanf(g *FuncGen, c *ast.CallExpr, callee *types.Func, st *State) []Val
 		b := g.freshVal(st, "scanned", g.typeOf(outs[1]))
 		sign := g.strLit(format[:1])
 		g.assume(st, fmt.Sprintf("(forall ((x Int) (y Int)) (! (=> (and (<= 0 x) (<= x 99) (<= 0 y) (<= y 99) (= %s (bcat %s (bcat (fmtd x 2) (fmtd y 2))))) (and (= %s 0) (= %s x) (= %s y))) :pattern ((bcat (fmtd x 2) (fmtd y 2)))))", s.T, sign, err.T, a.T, b.T))
+		// a field of width two holds at most two characters: a value in [-9, 99]
+		g.assume(st, fmt.Sprintf("(and (<= (- 9) %s) (<= %s 99) (<= (- 9) %s) (<= %s 99))", a.T, a.T, b.T, b.T))
 		oa := g.ev(outs[0], st)
 		ob := g.ev(outs[1], st)
 		g.assignTo(outs[0], Val{fmt.Sprintf("(ite (= %s 0) %s %s)", err.T, a.T, oa.T), a.Ty, "Int"}, st)
